@@ -223,6 +223,33 @@ _run_core = run
 def run(cx):
     _run_core(cx)
     ack_recording(cx, "C15.e")
+    # an acknowledgement is applied to the frames it names: the log lookups used for checking and for applying
+    # agree (modular index), and window bases beyond what was sent are refused
+    from props.idarith import id_arith_discipline
+    id_arith_discipline(cx, "C15.f")
+    from props.C03 import check_validators
+    check_validators(cx, "C15.g")
+    from props.C11 import ack_advance_exact
+    ack_advance_exact(cx, "C15.h")
+    log_lookup_siblings(cx, "C15.i")
+
+
+def log_lookup_siblings(cx, iid):
+    """T4: FrameLog::get_frame (used to validate an ack group) and get_frame_mut (used to apply it) index the log
+    with the same expression"""
+    R = cx.R
+    with cx.instance(iid, "T4 SIBLING", "FrameLog::get_frame and get_frame_mut compute the same modular index", floor=2) as inst:
+        idx = {}
+        for fn, getter in (("FrameLog::get_frame", "VecDeque::get"), ("FrameLog::get_frame_mut", "VecDeque::get_mut")):
+            b = R.body(fn)
+            for l, t in b.calls(getter):
+                e = show(b.call_expr(t))
+                inst.site(b, l, e[:100])
+                idx[fn] = re.sub(r"^VecDeque::get(_mut)?", "", e)
+        if len(idx) != 2 or len(set(idx.values())) != 1:
+            inst.violation("half_connection::frame_queue::FrameLog", "get_frame / get_frame_mut", "the checking and the applying lookup disagree: %s" % idx)
+        elif not re.fullmatch(r"\(arg1\.frames,cast<usize>\(u32::wrapping_sub\(arg2,arg1\.base_id\)\)\)", list(idx.values())[0]):
+            inst.violation("half_connection::frame_queue::FrameLog", "log index", "the frame log is indexed by `%s`, expected (id wrapping_sub base) as usize" % list(idx.values())[0])
 
 
 SELFTEST = [
